@@ -1,10 +1,168 @@
-//! C08 — not built yet.
+//! C08 Unsafe-VRP policy filters exactly overlapping VRPs.
+
+use std::net::{IpAddr, Ipv4Addr, Ipv6Addr};
+
+use proptest::prelude::*;
 
 use crate::core::*;
+use crate::erpki::*;
+use crate::erun::*;
+use crate::escen::*;
+use crate::rpkigen::Res;
 
-pub const IMPLEMENTED: bool = false;
+fn v4(a: u32, len: u8) -> (Ipv4Addr, u8) {
+    let m = if len == 0 { 0 } else { u32::MAX << (32 - len as u32) };
+    (Ipv4Addr::from(a & m), len)
+}
+fn v6(a: u128, len: u8) -> (Ipv6Addr, u8) {
+    let m = if len == 0 { 0 } else { u128::MAX << (128 - len as u32) };
+    (Ipv6Addr::from(a & m), len)
+}
 
-pub fn run(_ctx: &Ctx, _rep: &mut Report, _replay: Option<&serde_json::Value>) {
-    eprintln!("C08: check not implemented");
-    std::process::exit(2);
+/// TA(0) -> A(1) [candidate for rejection], B(2) [issues ROAs relative to A's blocks], optional
+/// second TAL C(3) with unrelated ROAs, optional A2(4) under A.
+fn scenario(words: &[u16]) -> Scenario {
+    let mut d = D::new(words);
+    let mut cfg = Cfg::default();
+    cfg.unsafe_vrps = d.pick(&[0u8, 0, 1, 2]);
+    cfg.stale = 0;
+    cfg.threads = d.pick(&[2usize, 1, 8]);
+    let p = Profile { max_cas: 5, max_tals: 1, max_objs: 2, versions: 1, fault_16: 0, obj_faults: false, cert_faults: false, pp_faults: false, vary_cfg: false, modules: 2 };
+    // A's blocks inside 10.200.0.0/14 and 2001:db8:c800::/38
+    let slash_zero = d.chance(2, 16);
+    let mut a_res = Res { v4: vec![], v6: vec![], asn: vec![] };
+    let n4 = 1 + d.below(2);
+    let mut blocks4: Vec<(u32, u8)> = Vec::new();
+    for _ in 0..n4 {
+        let len = d.pick(&[24u8, 16, 20, 23, 17]);
+        let base = 0x0AC8_0000u32 + ((d.below(4) as u32) << 16) + ((d.below(16) as u32) << 12);
+        let (a, l) = v4(base, len);
+        blocks4.push((u32::from(a), l));
+        a_res.v4.push((a, l));
+    }
+    let len6 = d.pick(&[48u8, 40, 44]);
+    let base6: u128 = (0x2001_0db8_c800u128 << 80) + ((d.below(8) as u128) << 84);
+    let (a6, l6) = v6(base6, len6);
+    a_res.v6.push((a6, l6));
+    if slash_zero {
+        a_res = Res { v4: vec![(Ipv4Addr::new(0, 0, 0, 0), 0)], v6: vec![(Ipv6Addr::from(0u128), 0)], asn: vec![] };
+    }
+    // B covers the whole region
+    let b_res = if slash_zero { Res { v4: vec![(Ipv4Addr::new(0, 0, 0, 0), 0)], v6: vec![(Ipv6Addr::from(0u128), 0)], asn: vec![] } } else { Res { v4: vec![(Ipv4Addr::new(10, 192, 0, 0), 11)], v6: vec![v6(0x2001_0db8_c000u128 << 80, 35)], asn: vec![] } };
+    // ROAs of B relative to A's blocks
+    let mut prefixes: Vec<(IpAddr, u8, Option<u8>)> = Vec::new();
+    let nroa = 2 + d.below(6);
+    for _ in 0..nroa {
+        let rel = d.below(8);
+        if rel == 7 || blocks4.is_empty() {
+            // v6 relations
+            let size_shift = 128 - l6 as u32;
+            let a = u128::from(a6);
+            let (addr, len) = match d.below(5) {
+                0 => (a, l6),
+                1 => (a, l6 - 4),
+                2 => (a + (3u128 << (size_shift - 4)), l6 + 4),
+                3 => (a.wrapping_add(1u128 << size_shift), l6),
+                _ => (a.wrapping_sub(1u128 << size_shift), l6),
+            };
+            let (pa, pl) = v6(addr, len);
+            prefixes.push((IpAddr::V6(pa), pl, d.pick(&[None, Some(pl.saturating_add(8).min(128))])));
+            continue;
+        }
+        let (ba, bl) = blocks4[d.below(blocks4.len())];
+        let size = 1u32 << (32 - bl as u32);
+        let (addr, len) = match rel {
+            0 => (ba, bl),                                       // equal
+            1 => (ba, bl - 3),                                   // covering
+            2 => (ba + size / 2, (bl + 2).min(32)),              // covered
+            3 => (ba.wrapping_add(size), bl),                    // adjacent above
+            4 => (ba.wrapping_sub(size), bl),                    // adjacent below
+            5 => (ba.wrapping_add(size), (bl + 3).min(32)),      // first small block after the end
+            _ => (ba.wrapping_sub(1), 32),                       // last address before the block
+        };
+        let (pa, pl) = v4(addr, len);
+        prefixes.push((IpAddr::V4(pa), pl, d.pick(&[None, Some(pl.saturating_add(4).min(32))])));
+    }
+    if slash_zero {
+        prefixes.push((IpAddr::V4(Ipv4Addr::new(203, 0, 113, 0)), 24, None));
+    }
+    prefixes.sort();
+    prefixes.dedup_by(|a, b| a.0 == b.0 && a.1 == b.1);
+    let reject_fault = d.pick(&[Some(PpFault::MftBadSig), Some(PpFault::MftMissing), Some(PpFault::CrlBadSig), None, Some(PpFault::FileMissing(0)), Some(PpFault::MftGarbage)]);
+    let stale_reject = d.chance(2, 16);
+    let mk_ver = |d: &mut D, objs: Vec<Obj>, fault: Option<PpFault>| {
+        let mut v = decode_version(d, &p, 0);
+        v.objs = objs;
+        v.fault = fault;
+        v
+    };
+    let roa_a = Obj { kind: ObjKind::Roa { extra: 1, maxlen_delta: 0, v6: false }, not_after: 86400 * 30, fault: None };
+    let mut cas = Vec::new();
+    let ta_extra = if slash_zero { Some(Res { v4: vec![(Ipv4Addr::new(0, 0, 0, 0), 0)], v6: vec![(Ipv6Addr::from(0u128), 0)], asn: vec![] }) } else { None };
+    cas.push(Ca { parent: None, key: 0, module: 0, not_after: 86400 * 365, cert_fault: None, versions: vec![mk_ver(&mut d, vec![roa_a.clone()], None)], extra_res: ta_extra });
+    let mut a_ver = mk_ver(&mut d, vec![roa_a.clone(), roa_a.clone()], reject_fault);
+    if stale_reject {
+        a_ver.fault = None;
+        a_ver.next_off = -3600;
+    }
+    cas.push(Ca { parent: Some(0), key: 1, module: d.below(2), not_after: 86400 * 365, cert_fault: None, versions: vec![a_ver], extra_res: Some(a_res) });
+    let b_objs = vec![Obj { kind: ObjKind::RoaRaw { asn: 64999, prefixes }, not_after: 86400 * 30, fault: None }, roa_a.clone()];
+    cas.push(Ca { parent: Some(0), key: 2, module: d.below(2), not_after: 86400 * 365, cert_fault: None, versions: vec![mk_ver(&mut d, b_objs, None)], extra_res: Some(b_res) });
+    if d.chance(1, 2) {
+        // a descendant of A: its resources are part of A's certificate, it contributes nothing when A is rejected
+        cas.push(Ca { parent: Some(1), key: 3, module: 0, not_after: 86400 * 365, cert_fault: None, versions: vec![mk_ver(&mut d, vec![roa_a.clone()], None)], extra_res: None });
+    }
+    let steps = vec![Step { publish: vec![0; cas.len()], fail_modules: vec![], offline: false, stale: None }];
+    Scenario { cfg, cas, steps }
+}
+
+fn prop(sc: &Scenario, info: &mut CaseInfo) -> Verdict {
+    let j = Judge { id: "C08", sound: true, complete: true, points: true, ..Default::default() };
+    let mut overlapping = 0;
+    let mut disjoint = 0;
+    let mut rejected = false;
+    let sc2 = sc.clone();
+    let v = judge(&j, sc, info, |_, obs| {
+        rejected = obs.exp.rejected.contains(&1);
+        // classify B's raw prefixes against A's resources
+        let res = cert_res(&sc2, 1);
+        if let ObjKind::RoaRaw { prefixes, .. } = &sc2.cas[2].versions[0].objs[0].kind {
+            for (a, l, _) in prefixes {
+                let o = crate::pay::MOrigin::new(*a, *l, None, 1);
+                let (lo, hi) = addr_range(o.bits(), o.len, o.is_v4());
+                let hit = res.v4.iter().filter(|(_, bl)| *bl > 0).any(|(ba, bl)| {
+                    let (blo, bhi) = addr_range((u32::from(*ba) as u128) << 96, *bl, true);
+                    o.is_v4() && lo <= bhi && blo <= hi
+                }) || res.v6.iter().filter(|(_, bl)| *bl > 0).any(|(ba, bl)| {
+                    let (blo, bhi) = addr_range(u128::from(*ba), *bl, false);
+                    !o.is_v4() && lo <= bhi && blo <= hi
+                });
+                if hit {
+                    overlapping += 1
+                } else {
+                    disjoint += 1
+                }
+            }
+        }
+        None
+    });
+    info.nontrivial = rejected && overlapping >= 1 && disjoint >= 1;
+    info.class(format!("unsafe_policy_{}", sc.cfg.unsafe_vrps));
+    info.class(if rejected { "A_rejected" } else { "A_accepted" });
+    if sc.cas[1].extra_res.as_ref().map(|r| r.v4.iter().any(|x| x.1 == 0)).unwrap_or(false) {
+        info.class("A_holds_slash_zero");
+    }
+    v
+}
+
+pub fn run(ctx: &Ctx, rep: &mut Report, replay: Option<&serde_json::Value>) {
+    rep.rule("E-rpki trees TA -> {A, B} (+ optional child of A): A holds 1-2 IPv4 blocks (/16../24) and an IPv6 block (/40../48) or only 0.0.0.0/0 and ::/0, and is rejected in most cases (bad/missing/garbage manifest, bad CRL, missing file, stale manifest under reject); B holds a covering region and issues a ROA whose prefixes are built relative to A's blocks: equal, covering, covered, adjacent above/below, first small block after the end, last address before the start, IPv6 counterparts; unsafe-vrps in {reject, warn, accept}; oracle: served set equals the model computed with own u128 interval arithmetic (reject: nothing overlapping A's non-/0 blocks and nothing else removed; warn/accept: unfiltered), point counts match; non-trivial = A rejected and B has >=1 overlapping and >=1 disjoint prefix; distinct by serialised scenario");
+    rep.assume("reference model Appendix A");
+    ctx.shrink_iters.store(150, std::sync::atomic::Ordering::Relaxed);
+    if let Some(v) = replay {
+        let t: Tagged<Scenario> = serde_json::from_value(v.clone()).expect("replay");
+        run_case(ctx, rep, &t.sub, &t.case, prop);
+        return;
+    }
+    run_prop_par(ctx, rep, "overlap", ctx.tier.pick(320, 8000), 8, || genome(120).prop_map(|w| scenario(&w)), prop);
 }
